@@ -1113,7 +1113,9 @@ func runMain(args []string) int {
 	}
 	os.MkdirAll(filepath.Join(verifDir, "evidence"), 0o755)
 	eb, _ := json.MarshalIndent(ev, "", " ")
-	if err := os.WriteFile(filepath.Join(verifDir, "evidence", *prop+".json"), eb, 0o644); err != nil {
+	if os.Getenv("SYMGO_NO_EVIDENCE") != "" {
+		// diagnostic runs (solver diff) must not overwrite the evidence of the real check
+	} else if err := os.WriteFile(filepath.Join(verifDir, "evidence", *prop+".json"), eb, 0o644); err != nil {
 		fmt.Println("ERROR: cannot write evidence:", err)
 		infra = true
 	}
